@@ -7,6 +7,7 @@ usage: seedtest.py <dir> [--import-as ID] [--props C01,C05] [--skip-verify]
    3. run the given property checks (default: the property in the dir name) and report which fire
 """
 import sys, os, subprocess, json, glob, shutil, re, time
+REPO = os.environ.get("REPO", "/repo")
 ENV = dict(os.environ, GOFLAGS="", GOPROXY="off", GOSUMDB="off", GOTOOLCHAIN="local")
 ENV.pop("GOWORK", None)
 def sh(cmd, cwd=None, env=ENV, timeout=1800):
@@ -32,12 +33,12 @@ def run_demo(d, ddir):
     demos = glob.glob(os.path.join(d, "*_test.go"))
     placed = []
     for f in demos:
-        dst = os.path.join("/repo", ddir, "zz_seed_" + os.path.basename(f))
+        dst = os.path.join(REPO, ddir, "zz_seed_" + os.path.basename(f))
         shutil.copy(f, dst); placed.append(dst)
     names = []
     for f in demos:
         names += re.findall(r"func (Test\w+)\(", open(f).read())
-    rc, out = sh(f"go test -vet=off -count=1 -run '^({'|'.join(names)})$' .", cwd=os.path.join("/repo", ddir))
+    rc, out = sh(f"go test -vet=off -count=1 -run '^({'|'.join(names)})$' .", cwd=os.path.join(REPO, ddir))
     for f in placed: os.remove(f)
     return rc, out
 def main():
@@ -56,33 +57,33 @@ def main():
     if props is None: props = [tag.split("-")[0]]
     ddir = demo_dir(d)
     res = {"id": tag, "demo_dir": ddir}
-    rc, out = sh("git status --porcelain --untracked-files=no", cwd="/repo")
+    rc, out = sh("git status --porcelain --untracked-files=no", cwd=REPO)
     if out.strip(): print("REPO DIRTY, abort:", out); sys.exit(2)
     try:
         if not skip:
             rc, out = run_demo(d, ddir); res["demo_passes_unpatched"] = (rc == 0)
             if rc != 0: res["demo_unpatched_output"] = out[-1500:]
-        rc, out = sh(f"git apply --3way {d}/patch.diff", cwd="/repo")
+        rc, out = sh(f"git apply --3way {d}/patch.diff", cwd=REPO)
         if rc != 0:
-            rc, out2 = sh(f"patch -p1 --no-backup-if-mismatch < {d}/patch.diff", cwd="/repo"); out += out2
+            rc, out2 = sh(f"patch -p1 --no-backup-if-mismatch < {d}/patch.diff", cwd=REPO); out += out2
         res["patch_applies"] = (rc == 0)
         if rc != 0: res["apply_output"] = out[-800:]; raise SystemExit
-        sh("git reset -q", cwd="/repo")
+        sh("git reset -q", cwd=REPO)
         if not skip:
-            rc, out = sh("/verif/tools/baseline.sh"); res["baseline_with_patch"] = out.strip().splitlines()[0] if out.strip() else ""
+            rc, out = sh(f"REPO={REPO} /verif/tools/baseline.sh"); res["baseline_with_patch"] = out.strip().splitlines()[0] if out.strip() else ""
             res["baseline_ok"] = (rc == 0)
             rc, out = run_demo(d, ddir); res["demo_fails_patched"] = (rc != 0)
             res["demo_patched_output"] = "\n".join([l for l in out.splitlines() if "---" in l or "Error" in l or "panic" in l][:6])
         fired = {}
         for pr in props:
-            rc, out = sh(f"/verif/check {pr} quick", cwd="/verif")
+            rc, out = sh(f"VERIF_REPO={REPO} /verif/check {pr} quick", cwd="/verif")
             v = [l for l in out.splitlines() if l.startswith("VIOLATION") ]
             keys = [l for l in out.splitlines() if re.match(r"^\S+:\d+: C\d\d", l)]
             und = [l for l in out.splitlines() if l.startswith("UNDECIDED")]
             fired[pr] = {"exit": rc, "violations": len(v), "reports": keys[:5], "undecided": und[:3]}
         res["checks"] = fired
     finally:
-        sh("git reset -q --hard HEAD && git clean -fdq go/mcap go/ros", cwd="/repo")
+        sh("git reset -q --hard HEAD && git clean -fdq go/mcap go/ros", cwd=REPO)
     caught = [p for p, f in res.get("checks", {}).items() if f["exit"] == 1]
     res["caught_by"] = caught
     print(json.dumps(res, indent=1))
